@@ -46,6 +46,82 @@ def big_sources(rng):
     return out
 
 
+KIND_CORPUS = [
+    ("snippet", 'set req.http.A = "x";'), ("snippet", 'set var.i += 10;'), ("snippet", 'add resp.http.Set-Cookie = "a" "b";'),
+    ("snippet", 'unset req.http.A;'), ("snippet", 'remove req.http.A;'), ("snippet", 'declare local var.s STRING;'),
+    ("snippet", 'call f;'), ("snippet", 'call f(1, "a", req.http.B);'), ("snippet", 'error;'), ("snippet", 'error 404;'),
+    ("snippet", 'error 601 "x" + req.url;'), ("snippet", 'esi;'), ("snippet", 'log "a" req.url 10 1.5 10s true;'), ("snippet", 'restart;'),
+    ("snippet", 'return;'), ("snippet", 'return (lookup);'), ("snippet", 'return var.s;'), ("snippet", 'synthetic {"x"};'),
+    ("snippet", 'synthetic.base64 "eA==";'), ("snippet", 'std.log("a", 1);'), ("snippet", 'goto l1;\nl1:\n'), ("snippet", 'include "m";'),
+    ("snippet", '{ esi; { restart; } }'),
+    ("snippet", 'if (req.http.A == "x" && !req.http.B || (req.url ~ "^/a")) { esi; } else if (a) { restart; } elsif (b) { } else { log "x"; }'),
+    ("snippet", 'if (a) { switch (req.url) { case "a": esi; break; case ~ "b": fallthrough; default: restart; break; } }'),
+    ("snippet", 'if (a) { switch (std.tolower(req.url)) { case "a": break; } }'),
+    ("snippet", 'set var.s = if(req.http.A, "y", "n") + std.strlen(regsub(req.url, "a", "b")) + -1 + (1 + 2);'),
+    ("snippet", 'set var.i = 0x7FFFFFFFFFFFFFFF; set var.f = 1e3; set var.t = 10ms;'),
+    ("vcl", 'acl a { "10.0.0.0"/8; !"10.1.0.0"/16; "::1"; !"192.168.0.1"; }'),
+    ("vcl", 'backend b { .host = "h"; .port = "80"; .ssl = true; .connect_timeout = 1s; .probe = { .request = "GET /" "Host: x"; .interval = 5s; } }'),
+    ("vcl", 'director d random { .quorum = 50%; .retries = 3; { .backend = b; .weight = 1; } { .backend = c; .weight = 2; } }'),
+    ("vcl", 'table t { "a": "b", "c": "d" }'), ("vcl", 'table t2 INTEGER { "a": 1, }'), ("vcl", 'table t3 BACKEND { }'),
+    ("vcl", 'penaltybox p { }'), ("vcl", 'ratecounter r { }'), ("vcl", 'import m;'), ("vcl", 'include "x";'),
+    ("vcl", 'sub f { }'), ("vcl", 'sub g STRING { return "x"; }'), ("vcl", 'sub h(STRING a, INTEGER b) BOOL { return true; }'),
+    ("vcl", 'sub vcl_recv { #FASTLY recv\n set req.http.A = "" ; return (pass); }'),
+]
+
+LEAF_TYPES = None
+
+
+def frame_types():
+    """name -> number, from the regenerated coq/Gen/CodecFrames.v (same table the model uses)"""
+    import re
+    txt = open(os.path.join(V.COQ, "Gen", "CodecFrames.v")).read()
+    return {m.group(1): int(m.group(2)) for m in re.finditer(r"Definition FT_(\w+) : N := (\d+)\.", txt)}
+
+
+def headers(b, ft):
+    """offsets of the 3-byte frame headers of a VALID encoding (leaf frames carry a payload)"""
+    leaf = {ft[k] for k in ("IDENT_VALUE", "STRING_VALUE", "IP_VALUE", "RTIME_VALUE", "INTEGER_VALUE", "FLOAT_VALUE", "BOOL_VALUE", "OPERATOR")}
+    out = []
+    pos = 0
+    while pos < len(b):
+        t = b[pos]
+        if t in (ft["END"], ft["FIN"]):
+            pos += 1
+            continue
+        if pos + 3 > len(b):
+            break
+        size = (b[pos + 1] << 8) | b[pos + 2]
+        out.append((pos, t in leaf, size))
+        pos += 3 + (size if t in leaf else 0)
+    return out
+
+
+def structural_mutants(hx, ft, rng, per_encoding):
+    """every frame header x boundary sizes (with the payload kept, cut or padded accordingly) and
+    x every frame type: the decoder's length / type handling at each position of a valid stream"""
+    b = bytes.fromhex(hx)
+    hs = headers(b, ft)
+    out = []
+    sizes = [0, 1, 2, 7, 8, 9, 255, 256, 65535]
+    types = sorted(set(ft.values()))
+    for pos, leaf, size in hs:
+        for k in sizes + [max(size - 1, 0), size + 1]:
+            nb = bytearray(b)
+            nb[pos + 1], nb[pos + 2] = (k >> 8) & 255, k & 255
+            out.append((bytes(nb).hex(), "size-only"))
+            if leaf and k < 70000:
+                payload = b[pos + 3: pos + 3 + size]
+                newp = (payload + b"\x00" * k)[:k]
+                out.append(((b[:pos + 1] + bytes([(k >> 8) & 255, k & 255]) + newp + b[pos + 3 + size:]).hex(), "size+payload"))
+        for t in types:
+            nb = bytearray(b)
+            nb[pos] = t
+            out.append((bytes(nb).hex(), "type"))
+    if len(out) > per_encoding:
+        out = rng.sample(out, per_encoding)
+    return out
+
+
 def mutate(rng, hx, donors):
     b = bytearray.fromhex(hx)
     k = rng.random()
@@ -102,6 +178,7 @@ def run(ctx):
     g = vclgen.Gen(rng)
     n_gen = 6000 if thorough else 700
     sources = corpus_sources() + big_sources(rng)
+    sources += [(m, src.encode(), "kind-%d" % i) for i, (m, src) in enumerate(KIND_CORPUS)]
     for path, data in vclgen.repo_vcl_files(V.REPO):
         sources.append(("vcl", data, path))
     for i in range(n_gen):
@@ -136,6 +213,7 @@ def run(ctx):
     mrep = V.run_batch([model], mreq, hang_s=60, mem_kb=8_000_000)
     import re
     valid_encs = []
+    kind_encs = []
     roundtrip_ok = 0
     enc_agree = 0
     nontrivial = set()
@@ -165,6 +243,8 @@ def run(ctx):
         nontrivial.add(ast)
         if len(ienc) < 20000:
             valid_encs.append(ienc)
+        if label.startswith("kind-"):
+            kind_encs.append(ienc)
     # ---------------- decoder totality + correspondence on arbitrary bytes
     n_mut = 120000 if thorough else 14000
     byte_cases = [(h, lab) for h, lab in corpus_bytes()]
@@ -179,6 +259,12 @@ def run(ctx):
         for i in range(n_mut):
             h, kind = mutate(rng, rng.choice(small), small)
             byte_cases.append((h, kind))
+    # structure-aware mutants of one encoding per node kind: every header x boundary sizes x every type
+    ft = frame_types()
+    for h in kind_encs:
+        byte_cases += structural_mutants(h, ft, rng, 4000 if thorough else 700)
+    for h in rng.sample(small, min(len(small), 300 if thorough else 25)):
+        byte_cases += structural_mutants(h, ft, rng, 1500 if thorough else 200)
     for _, kind in byte_cases:
         mk[kind] = mk.get(kind, 0) + 1
     dreq = ["dec " + h for h, _ in byte_cases]
